@@ -335,7 +335,7 @@ impl RuleGen {
             return match r.below(3) {
                 0 => json!({"/": [1]}),
                 1 => json!({"+": ["x"]}),
-                _ => json!({"var": [[]]}),
+                _ => json!({"in": ["a", 5]}),
             };
         }
         if r.chance(2, 5) {
